@@ -16,6 +16,10 @@ def specmod():
 
 
 def gen(contract):
+    from . import values
+    values.reset_names()
+    symex._cell_ctr[0] = 0
+    symex.OPAQUE_DEFS.clear()
     ex = symex.Executor(contract, specmod())
     obls = ex.run()
     return obls, ex
